@@ -23,7 +23,9 @@
 //          1  abcd  12345  :  ::  1.2.3.4  255.255.255.255  1.2.3.256  1:
 //       against IPv6address (8 tokens reach the full form 1:1:1:1:1:1:1:1 and every "::" alternative)
 //   D3b all strings of <= 6 (quick) / <= 8 (thorough) of the same tokens as URI_reference "//["s"]"
-//       and (thorough) URI "a://["s"]:8/"      (shorter: almost every case ends in a thrown parse_error)
+//       and (thorough) all of <= 7 tokens as URI "a://["s"]:8/"   (shorter: almost every case ends in a thrown parse_error)
+//   Strings longer than 126 bytes (the capacity of the reference's position sets) are skipped and counted in
+//   "skipped_too_long"; this only concerns 19 strings of D3 thorough (nine tokens, at least eight of them 255.255.255.255).
 //   D4  all single edits (delete a byte, replace a byte by / insert at every position each of the
 //       30 edit bytes) of a corpus of valid URIs, references and address literals taken from
 //       RFC 3986 sections 1.1.2, 3, 5.4 and 6.2 (+ one literal per IPv6address alternative) x all five rules;
@@ -480,8 +482,8 @@ int main( int argc, char** argv )
    // ---- D3 ------------------------------------------------------------------------------------
    if( ok ) {
       const std::vector< Context > direct = { { uriref::R_IPv6address, "", "" } };
-      std::vector< Context > bracket = { { uriref::R_URI_reference, "//[", "]" } };
-      if( T ) bracket.push_back( { uriref::R_URI, "a://[", "]:8/" } );
+      const std::vector< Context > bracket = { { uriref::R_URI_reference, "//[", "]" } };
+      const std::vector< Context > bracket2 = { { uriref::R_URI, "a://[", "]:8/" } };
       const std::vector< std::string > tok = { "1", "abcd", "12345", ":", "::", "1.2.3.4", "255.255.255.255", "1.2.3.256", "1:" };
       const int Ld = T ? 9 : 8;  // IPv6address itself
       const int Lb = T ? 8 : 6;   // inside "[" "]" (nearly every such case ends in a thrown parse_error, which is ~10x slower)
@@ -491,6 +493,9 @@ int main( int argc, char** argv )
       domain_done( "D3", ok );
       for( int len = 0; ok && len <= Lb; ++len ) {
          ok = for_each_token_string( tok, len, [ & ]( const std::string& s ) { run_contexts( s, bracket ); } );
+      }
+      for( int len = 0; ok && T && len <= 7; ++len ) {
+         ok = for_each_token_string( tok, len, [ & ]( const std::string& s ) { run_contexts( s, bracket2 ); } );
       }
       domain_done( "D3b", ok );
    }
@@ -535,7 +540,7 @@ int main( int argc, char** argv )
 
    const std::string nc = std::to_string( corpus().size() );
    std::string note = T ? "thorough: D1 all strings len<=6 over 22 class representatives [agv012569.:/?#[]@%!-+ SP] + len 7 over the 16 [agv01.:/?#[]@%-+], x 5 rules; D2a 1..5 dotted slots of 16 octet tokens x 6 contexts; "
-                          "D2b <=8 tokens over {0 1 25 255 256 01 a .} x 6 contexts; D3 <=9 tokens over 9 IPv6 tokens {1 abcd 12345 : :: 1.2.3.4 255.255.255.255 1.2.3.256 1:} as IPv6address, D3b <=8 tokens inside //[..] and a://[..]:8/; "
+                          "D2b <=8 tokens over {0 1 25 255 256 01 a .} x 6 contexts; D3 <=9 tokens over 9 IPv6 tokens {1 abcd 12345 : :: 1.2.3.4 255.255.255.255 1.2.3.256 1:} as IPv6address (19 strings > 126 bytes skipped, counter skipped_too_long), D3b <=8 tokens inside //[..] and <=7 inside a://[..]:8/; "
                           "D4 all single byte edits (30 edit bytes) of " + nc + " RFC 3986 corpus strings and all double edits of those of length<=12, x 5 rules; every library run repeated with a poison tail behind the input"
                         : "quick: D1 all strings len<=5 over 22 class representatives [agv012569.:/?#[]@%!-+ SP] + len 6 over the 16 [agv01.:/?#[]@%-+], x 5 rules; D2a 1..5 dotted slots of 16 octet tokens x 6 contexts; "
                           "D2b <=7 tokens over {0 1 25 255 256 01 a .} x 6 contexts; D3 <=8 tokens over 9 IPv6 tokens {1 abcd 12345 : :: 1.2.3.4 255.255.255.255 1.2.3.256 1:} as IPv6address, D3b <=6 tokens inside //[..]; "
